@@ -81,7 +81,7 @@ PROPS = {
                  "publish in a fresh process, and one publish per enumerated writer-fault position. one evaluation = one simulated Publish. distinct_nontrivial = distinct "
                  "contended-schedule hashes of variant runs that deviated from the default schedule plus distinct (document, options, k, jobs, sticky) fault injections that fired."),
         "tiers": {
-            "quick": {"cases": 320, "wall_s": 90, "seed": 1, "minimise_s": 40, "case_budget_s": 300, "chunk": 60},
+            "quick": {"cases": 320, "wall_s": 90, "seed": 1, "minimise_s": 40, "case_budget_s": 90, "chunk": 60},
             "thorough": {"cases": 12000, "wall_s": 1800, "seed": 1001, "minimise_s": 120, "case_budget_s": 600, "chunk": 60},
         },
         "probes_wanted": ["jobs>1", "variants_compared", "fresh_process_compared", "writer_failed_with_jobs>1", "producer_left_blocked_after_failure", "files"],
